@@ -336,6 +336,8 @@ def check(case):
 
     def prepare(cc, scn):
         holder["dev"] = Deviant(cc if side == "c" else scn, fn)
+        if case.get("nocs"):
+            (scn if side == "c" else cc).closeSocket = False
     client, server = opts_for(name)
     DET.reseed("C06", name)
     p = sc.connect(client, server, prepare=prepare, max_steps=20000)
@@ -503,6 +505,19 @@ def check(case):
     if vout.state == "exc":
         e = vout.exc
         if isinstance(e, TLSLocalAlert):
+            # "aborts with a fatal alert": the alert really left (the
+            # victim does not close its socket in these runs, so nothing
+            # but the alert path itself pushes it out)
+            recs, _ = records(p.link.wire(vic))
+            seen = any(r["type"] in (21, None) for r in recs) or (
+                version == (3, 4) and recs and recs[-1]["type"] == 23 and
+                recs[-1]["len"] <= 64)
+            if not seen and case.get("nocs"):
+                return bad("abort-alert-not-on-the-wire:" + where,
+                           "victim raised %s; its %d records on the wire "
+                           "hold no alert; case=%r" % (
+                               describe_exc(e), len(recs), case),
+                           labels=labels)
             return good(labels=labels)
         if isinstance(e, (TLSAbruptCloseError, OSError, TLSRemoteAlert)):
             return good(labels=labels + ["no-completion"])
@@ -639,7 +654,8 @@ def dev_strategy():
 def cases(draw, tier):
     return {"k": "dev", "fl": draw(st.sampled_from(FL)),
             "side": draw(st.sampled_from(["c", "s"])),
-            "devs": draw(st.lists(dev_strategy(), min_size=2, max_size=2))}
+            "devs": draw(st.lists(dev_strategy(), min_size=2, max_size=2)),
+            "nocs": draw(st.booleans())}
 
 
 def strategy(tier):
@@ -657,9 +673,9 @@ def explicit(tier, seed):
             n = len(log[side])
             for i in range(n):
                 yield {"k": "dev", "fl": fl, "side": side,
-                       "devs": [["skip", i]]}
+                       "devs": [["skip", i]], "nocs": i % 2 == 0}
                 yield {"k": "dev", "fl": fl, "side": side,
-                       "devs": [["dup", i]]}
+                       "devs": [["dup", i]], "nocs": i % 2 == 1}
                 if i + 1 < n:
                     yield {"k": "dev", "fl": fl, "side": side,
                            "devs": [["swap", i]]}
